@@ -1,0 +1,63 @@
+//go:build verif
+
+package goja
+
+// Contracts for property C18 (Map and Set are insertion-ordered SameValueZero dictionaries, even
+// while mutated). Live entries are those whose key is not nil; removed entries (tombstones) keep
+// their links so that iterators parked on them can find their way back.
+
+// One-step invariants of the iteration list, over every entry of every map:
+//@ define linksFwd = forall e *mapEntry :: e != nil && e.key != nil && e.iterNext != nil ==> e.iterNext.iterPrev == e && e.iterNext.key != nil
+//@ define linksBack = forall e *mapEntry :: e != nil && e.key != nil && e.iterPrev != nil ==> e.iterPrev.iterNext == e && e.iterPrev.key != nil
+
+// Hashing a key is a pure function of the key (assumed; strings/BigInt/objects hash their content
+// or identity through maphash).
+//@ iface Value.hash
+//@   props C18
+//@   trusted
+//@   assigns nothing
+
+//@ func (*orderedMap).lookup
+//@   props C18
+//@   requires m != nil && key != nil
+//@   loop 1 vars entry *mapEntry, hPrev *mapEntry, h uint64
+//@   loop 1 invariant (hPrev == nil ==> entry == m.hashTable[h]) && (hPrev != nil ==> hPrev.hNext == entry) [chain-position]
+//@   ensures (hPrev == nil ==> entry == m.hashTable[h]) && (hPrev != nil ==> hPrev.hNext == entry) [chain-position]
+//@   ensures entry != nil ==> entry.key != nil [found-is-live]
+//@   assigns nothing
+
+//@ func (*orderedMap).set
+//@   props C18
+//@   requires m != nil && key != nil && specMapEndsOK(m)
+//@   requires @linksFwd
+//@   requires @linksBack
+//@   ensures specMapEndsOK(m) [ends]
+//@   ensures @linksFwd [links-forward]
+//@   ensures @linksBack [links-backward]
+//@   ensures m.size == old(m.size) && m.iterLast == old(m.iterLast) && m.iterFirst == old(m.iterFirst) || m.size == old(m.size)+1 && m.iterLast != nil && m.iterLast.iterPrev == old(m.iterLast) && same(m.iterLast.value, value) && m.iterLast.key != nil && (old(m.iterLast) == nil ==> m.iterFirst == m.iterLast) && (old(m.iterLast) != nil ==> m.iterFirst == old(m.iterFirst)) [updates-in-place-or-appends-at-tail]
+
+//@ func (*orderedMap).remove
+//@   props C18
+//@   requires m != nil && key != nil && specMapEndsOK(m)
+//@   requires @linksFwd
+//@   requires @linksBack
+//@   ensures specMapEndsOK(m) [ends]
+//@   ensures @linksFwd [links-forward]
+//@   ensures @linksBack [links-backward]
+//@   ensures result ==> m.size == old(m.size)-1 [size]
+//@   ensures !result ==> m.size == old(m.size) && m.iterFirst == old(m.iterFirst) && m.iterLast == old(m.iterLast) [absent-is-noop]
+
+//@ func (*orderedMapIter).next
+//@   props C18
+//@   requires iter != nil && (iter.m == nil || specMapEndsOK(iter.m))
+//@   requires @linksFwd
+//@   loop 1 vars cur *mapEntry
+//@   loop 1 invariant true [walk-back]
+//@   ensures result != nil ==> result.key != nil && iter.cur == result [returns-live-entry]
+//@   ensures result == nil ==> iter.m == nil && iter.cur == nil [exhausted-closes]
+
+//@ func (*orderedMapIter).close
+//@   props C18
+//@   requires iter != nil
+//@   ensures iter.m == nil && iter.cur == nil [closed]
+//@   assigns iter.m, iter.cur
